@@ -156,7 +156,9 @@ theorem implItemOfTraitItem_spec_it {href tit fin : T} (h : implItemOfTraitItem 
       · cases h
       · next args hargs =>
         cases h
-        have hv' : variadic = tNone := by simpa using hv
+        have hv' : variadic = tNone := by
+          have := hv; simp only [Bool.or_eq_true, not_or] at this
+          simpa using this.1
         subst hv'
         simp [delegates_it, inheritedVis_it, selfAsHelperPath, tList, hargs]
   · cases h
